@@ -46,7 +46,7 @@ def cases(ctx):
     kind = ctx.shard["kind"]
     if kind == "files":
         for i in range(ctx.shard["n"]):
-            c = indx.indx_case(rng)
+            c = indx.run_case(rng) if i % 29 == 3 else (indx.tiled_case(rng) if i % 11 == 6 else indx.indx_case(rng))
             c["kind"] = "files"
             yield c
     elif kind == "narrow":
